@@ -53,6 +53,8 @@ def pool(tier):
             (S.cx(S.cp(None, ('fn', 'not', (S.cx(sc, ' ', star),)))),),
             (S.cx(sc), S.cx(b)),
             (S.cx(sc, '>', S.cp(None, ('pc', 'first-child'))),),
+            (S.cx(sc, '~', a),), (S.cx(sc, '~', star, ' ', star),), (S.cx(star, ' ', sc, ' ', star),), (S.cx(sc, '+', star, '>', b),),
+            (S.cx(S.cp(None, ('has', (('~', S.cx(sc)),)))),), (S.cx(S.cp(None, ('fn', 'is', (S.cx(sc, '~', star),)))),),
         ]
     _CACHE[('pool', tier)] = out
     return out
@@ -71,6 +73,16 @@ def forests(tier):
             for lab in T.label(shape, ('a', 'b')):
                 k = itertools.count()
                 out.append(T.to_spec(lab, lambda i: (('id', 'e%d' % i),)))
+    # the same shapes without ids: structurally identical twins (bs4's Tag.__eq__ is structural, identity must decide)
+    twins = []
+    for n in range(1, 4):
+        for shape in T.forests(n):
+            if len(shape) > 2:
+                continue
+            for lab in T.label(shape, ('a',)):
+                twins.append(T.to_spec(lab))
+    twins.append((('e', 'a', (), (('e', 'b', (), ()), ('e', 'b', (), ()), ('e', 'b', (), (('e', 'a', (), ()),)))), ('e', 'a', (), (('e', 'b', (), ()), ('e', 'b', (), ()), ('e', 'b', (), (('e', 'a', (), ()),))))))
+    out = out + twins
     # a few trees with interleaved non-element children (filter/select must never return them)
     extra = []
     for f in out[:12]:
@@ -92,7 +104,7 @@ def subtree_specs(forest):
 
 def shards(tier, seed):
     n = 32 if tier == 'quick' else 96
-    return [('main', tier, i, n) for i in range(n)] + [('args', tier, i, 8) for i in range(8)]
+    return [('main', tier, i, n) for i in range(n)] + [('args', tier, i, 8) for i in range(8)] + [('xmlns', tier, 0, 1)]
 
 
 def ids(xs):
@@ -315,11 +327,69 @@ def run_args(sv, tier, i, n, res):
     return res
 
 
+XML_DOC = ('<r xmlns:p="urn:a" xmlns:q="urn:b"><p:e id="1"><p:e id="2"/><q:e id="3"/></p:e><p:e id="4" checked=""/><q:e id="5"><p:f id="6"/></q:e>'
+           '<e id="7"/><p:e id="8"/><input id="9" checked="" type="checkbox"/></r>')
+XML_SELECTORS = ['x|e', 'x|e:not(:checked)', 'x|e:not(:link, :disabled)', '*|e:is(x|e, :checked)', 'x|*:not(:enabled) > *|*', ':not(x|e)', 'x|e ~ x|e',
+                 ':--c', 'x|e:--c', ':is(:--c, x|f)']
+MAP_SEQS = [[{'x': 'urn:a'}, {'x': 'urn:b'}, {'x': 'urn:a'}], [{'x': 'urn:b'}, None, {'x': 'urn:a', 'y': 'urn:b'}, {'y': 'urn:a', 'x': 'urn:b'}]]
+CUSTOM_SEQS = [[{':--c': 'x|e'}, {':--c': 'x|f'}], [{':--c': '[id]'}, {':--c': ':not([id])'}, {':--c': '[id]'}]]
+
+
+def run_xmlns(sv, res):
+    """Coherence on namespaced XML: select(doc) = the descendants that match() accepts one by one; and call sequences WITHOUT purge
+    in which consecutive calls use maps with the same keys and different values must each equal a freshly compiled answer."""
+    import bs4
+    import warnings
+    with warnings.catch_warnings():
+        warnings.simplefilter('ignore')
+        soup = bs4.BeautifulSoup(XML_DOC, 'xml')
+    els = T.elements(soup)
+    idx = {id(e): k for k, e in enumerate(els)}
+    for text in XML_SELECTORS:
+        for maps in MAP_SEQS:
+            for customs in CUSTOM_SEQS:
+                sv.purge()
+                for m in maps:
+                    for cu in customs:
+                        if ':--c' not in text:
+                            cu = None
+                        for entry in ('select', 'filter', 'select_one'):
+                            try:
+                                got = getattr(sv, entry)(text, soup if entry != 'filter' else els[0], namespaces=m, custom=cu)
+                            except Exception as e:
+                                got = 'raise:' + type(e).__name__
+                            # fresh oracle: nothing cached, each element asked alone
+                            saved = sv.css_parser._cached_css_compile
+                            try:
+                                fresh = saved.__wrapped__(text, sv.css_types.Namespaces(m) if m is not None else None,
+                                                          sv.css_types.CustomSelectors(cu) if cu is not None else None, 0)
+                                pool = els if entry != 'filter' else [e for e in els[0].contents if isinstance(e, bs4.Tag)]
+                                want = [e for e in pool if fresh.match(e)]
+                                if entry == 'select_one':
+                                    want = want[0] if want else None
+                            except Exception as e:
+                                want = 'raise:' + type(e).__name__
+                            res.evaluations += 1
+                            g = [idx[id(x)] for x in got] if isinstance(got, list) else (idx.get(id(got)) if got is not None and not isinstance(got, str) else got)
+                            w = [idx[id(x)] for x in want] if isinstance(want, list) else (idx.get(id(want)) if want is not None and not isinstance(want, str) else want)
+                            if g != w:
+                                res.fail({'layer': 'xmlns', 'text': text, 'maps': maps, 'customs': customs, 'entry': entry},
+                                         {'entry': entry, 'what': 'no-purge-sequence-or-xml-coherence', 'custom': cu is not None},
+                                         f'{entry}({text!r}, namespaces={m!r}, custom={cu!r}) in a call sequence without purge = {g}; a fresh uncached compile asked element by element = {w}')
+                            else:
+                                res.outcome('xmlns-coherent')
+                                if w:
+                                    res.nontrivial += 1
+    return res
+
+
 def run_shard(desc):
     from .. import common
     sv = common.bind()
     layer, tier, i, n = desc
     res = shard.Result()
+    if layer == 'xmlns':
+        return run_xmlns(sv, res)
     if layer == 'args':
         return run_args(sv, tier, i, n, res)
     sels = pool(tier)
@@ -362,6 +432,13 @@ def run_shard(desc):
 def replay(case):
     from .. import common
     sv = common.bind()
+    if case['layer'] == 'xmlns':
+        r = shard.Result()
+        run_xmlns(sv, r)
+        for f_ in r.failures:
+            if f_['case']['text'] == case['text'] and f_['case']['entry'] == case['entry']:
+                return f_['sig'], f_['detail']
+        return (r.failures[0]['sig'], r.failures[0]['detail']) if r.failures else None
     f = _sel.tup(case['forest'])
     if case['layer'] == 'args':
         soup = T.build_api(f)
